@@ -1,28 +1,24 @@
-#!/usr/bin/env python3
-"""Regenerates /verif/MANIFEST.json from the table below (one line per registered check)."""
-import json, os
+#!/venv/bin/python
+"""Regenerates /verif/MANIFEST.json: one check per property module that defines TECHNIQUE/LEVEL_TEXT/LEVEL_NOTE."""
+import importlib, json, os, sys
 HERE = os.path.dirname(os.path.dirname(os.path.abspath(__file__)))
-
-# id -> (technique, level text, level note, design ref)
-CHECKS = {
- "C04": ("Hypothesis-generated operation histories + exhaustive short histories, judged by ledger invariants (net-worth conservation, bounds, potential argument)",
-         "Exploration: every generated/enumerated history of store operations is checked step by step against invariants derived from the statement (exact charging, free failures, capacity clamp, no energy creation, bounded spend, no raise). All op sequences up to depth 2 (quick) / 3 (thorough) over a 22-op alphabet on 6 configurations are enumerated completely; longer histories are sampled. Absence beyond that is not established.",
-         "Trusts the public getters (get_balance/get_debt/get_state) as the observation of the ledger; amounts restricted to non-negative ints; background regeneration thread not started.",
-         "DESIGN.md section 5 C04"),
- "C06": ("Hypothesis-generated weighted ballots + exhaustive unweighted ballots against a reference criterion per strategy (exact rationals) and metamorphic monotonicity (block->permit, raise weight/confidence, raise abstainer weight)",
-         "Exploration: real QuorumSensing/EmergencyQuorum aggregate ballots cast by stub voters; S1-S7 of DESIGN C06 are checked on every case and on each single-voter metamorphic variant. Unweighted ballots over 5 vote kinds for up to 4 (quick) / 6 (thorough) voters x all strategies + emergency are enumerated completely; weighted ballots, custom thresholds and min_voters are sampled.",
-         "Stub voters replace AgentProfile.agent; weights/confidences restricted to a finite non-negative grid; BAYESIAN is held only to S2/S4/S6/S7, not to a formula.",
-         "DESIGN.md section 5 C06"),
-}
+sys.path.insert(0, "/repo"); sys.path.insert(1, HERE)
 PENDING_REASON = "check not registered yet in this commit: the generated-input check for this property is still under construction (see DESIGN.md section 5); nothing is claimed for it"
+NA = {}
 
 def main():
     props = [json.loads(l) for l in open(os.path.join(HERE, "properties.jsonl"))]
+    mods = {}
+    for fn in sorted(os.listdir(os.path.join(HERE, "pbt", "props"))):
+        if fn[0] == "c" and fn.endswith(".py"):
+            m = importlib.import_module("pbt.props." + fn[:-3])
+            if hasattr(m, "TECHNIQUE"):
+                mods[m.PROPERTY] = m
     checks, na = [], []
     for p in props:
         pid = p["id"]
-        if pid in CHECKS:
-            tech, text, note, ref = CHECKS[pid]
+        if pid in mods:
+            m = mods[pid]
             checks.append({
                 "property_id": pid,
                 "quick_cmd": "./run_check.sh %s quick" % pid,
@@ -30,9 +26,9 @@ def main():
                 "evidence_file": "evidence/%s.json" % pid,
                 "replay_cmd_template": "./replay.sh {path}",
                 "engine": "pbt",
-                "level_claimed": {"category": "exploration", "text": text, "design_ref": ref},
-                "level_note": note,
-                "technique": tech,
+                "level_claimed": {"category": "exploration", "text": m.LEVEL_TEXT, "design_ref": "DESIGN.md section 5 " + pid},
+                "level_note": m.LEVEL_NOTE,
+                "technique": m.TECHNIQUE,
             })
         else:
             na.append({"property_id": pid, "reason": NA.get(pid, PENDING_REASON)})
@@ -46,7 +42,7 @@ def main():
             "source_commits": [],
             "add_only": True,
         },
-        "engines": [{"name": "pbt", "path": "pbt/core.py", "serves_properties": sorted(CHECKS),
+        "engines": [{"name": "pbt", "path": "pbt/core.py", "serves_properties": sorted(mods),
                      "kind_free_text": "property-based testing runner: Hypothesis (seeded, 16 shards) + exhaustive enumerators over the same JSON case format, collect-then-shrink with root-cause signatures, replay corpus, known-findings protocol"}],
         "checks": checks,
         "not_applicable": na,
@@ -57,7 +53,7 @@ def main():
     with open(os.path.join(HERE, "MANIFEST.json"), "w") as fh:
         json.dump(m, fh, indent=1)
         fh.write("\n")
+    print("registered:", " ".join(sorted(mods)))
 
-NA = {}
 if __name__ == "__main__":
     main()
